@@ -93,7 +93,10 @@ class C11(Prop):
     ]
 
     def model_runs(self, tier):
-        return [{"module": "Document", "cfg": f"Document_{tier}.cfg"}]
+        runs = [{"module": "Document", "cfg": f"Document_{tier}.cfg"}]
+        if tier == "thorough":
+            runs.append({"module": "Document", "cfg": "Document_sim.cfg", "simulate": "num=3000", "depth": 12, "export": False, "timeout": 900})
+        return runs
 
     def nontrivial(self, rec):
         def hasdep(x):
